@@ -162,8 +162,15 @@ func (w *World) secs(t time.Time) int64 {
 	if t.IsZero() || t.Before(w.Genesis) {
 		return 0
 	}
-	return int64(t.Sub(w.Genesis) / time.Second)
+	d := t.Sub(w.Genesis)
+	if d < 0 || d > time.Duration(TimeClamp)*time.Second { // Sub saturates for far-future times
+		return TimeClamp
+	}
+	return int64(d / time.Second)
 }
+
+// TimeClamp is the largest time / duration (seconds) reported to TLC; larger values mean "forever".
+const TimeClamp = 2_100_000_000
 
 // ---------------------------------------------------------------------------------------
 // network
